@@ -155,7 +155,14 @@ class ElectronRepulsionIntegral(BaseFourIndexSymmetric):
         if not isinstance(cont_four, GeneralizedContractionShell):
             raise TypeError("`cont_four` must be a `GeneralizedContractionShell` instance.")
 
-        # TODO: we can probably swap the contractions to get the optimal time or memory usage
+        # NOTE: the recursion transfers angular momentum from the first pair to the second one and amplifies
+        # rounding errors by (exps_one + exps_two) / (exps_three + exps_four) per transferred unit. (ab|cd) is
+        # therefore computed as (cd|ab) when the second pair carries more angular momentum, e.g. tight core s
+        # functions against diffuse d or f functions, and the axes are swapped back below.
+        swap_pairs = cont_three.angmom + cont_four.angmom > cont_one.angmom + cont_two.angmom
+        if swap_pairs:
+            cont_one, cont_two, cont_three, cont_four = cont_three, cont_four, cont_one, cont_two
+
         if cont_one.angmom == cont_two.angmom == cont_three.angmom == cont_four.angmom == 0:
             integrals = _compute_two_elec_integrals_angmom_zero(
                 cls.boys_func,
@@ -198,7 +205,8 @@ class ElectronRepulsionIntegral(BaseFourIndexSymmetric):
             )
         integrals = np.transpose(integrals, (4, 0, 5, 1, 6, 2, 7, 3))
 
-        # TODO: if we swap the contractions, we need to unswap them here
+        if swap_pairs:
+            integrals = np.transpose(integrals, (4, 5, 6, 7, 0, 1, 2, 3))
 
         return integrals
 
